@@ -142,7 +142,7 @@ class Histories(common.Suite):
             ens = self.ensembles[i % len(self.ensembles)]
             case = machine.gen_case(rng, ens, tier)
             if ens == "grand" and i % 23 == 5:
-                case["template_extra"] = True    # the species carries a per-atom array the system lacks (recorded finding)
+                case["template_extra"] = True    # the species carries a per-atom array the system lacks (a rejected or vetoed insertion takes the array away again: repair 2e18425)
             yield case
 
     def real(self, case):
